@@ -375,6 +375,7 @@ theorem asmDocsFor_next {t : Tabs} {I : Url} {Gp : List Url}
   have e2 : (asmCandidates I).all (is4xx t) = true := by
     rw [List.all_eq_true]; intro x hx; exact is4xx_of_4xx (h1 x hx)
   rw [e1, e2]; simp
+  intro x hx _; exact hx
 
 /-- The endpoints the model uses are those of the metadata it chose. -/
 theorem matchesUsed_model (cfg : Config) (inp : Input) (w : World) {a : AsmDoc}
